@@ -17,6 +17,7 @@ CHECKS["C12"] = {
         J("loaders", "c12", "TestLoaders", 600, 20000, 2),
         J("postprocessors", "c12", "TestPostProcessors", 500, 15000, 4),
         J("loaders-reinit", "c12", "TestLoadersReinit", 800, 20000, 2),
+        J("registered", "c12", "TestStaticRegisteredParticipants", None, None, env={"VERIF_GLOBAL_SETTINGS": "1"}),
     ],
     "assumptions": [
         "the contract does not require stability: equal Orders may appear in any relative order",
@@ -48,6 +49,7 @@ CHECKS["C02"] = {
         J("exh4", "c02", "TestExhaustive4", None, None, 16, tiers=["thorough"], replay_json=True),
         J("scale", "c02", "TestScale", 5, 60, 4),
         J("deepcycles", "c02", "TestStaticDeepCycles", None, None),
+        J("registered", "c02", "TestStaticRegisteredCycle", None, None, env={"VERIF_GLOBAL_SETTINGS": "1"}),
     ],
     "assumptions": [
         "termination is decided up to a deterministic step budget (one creation per component name, creation nesting depth <= #components+40)",
@@ -58,7 +60,8 @@ CHECKS["C02"] = {
 CHECKS["C06"] = {
     "level": "exploration",
     "jobs": [J("typedirected", "c06", "TestTypeDirected", 4000, 100000, 12), J("lazyretry", "c06", "TestLazyRetry", 800, 15000, 4), J("failingcandidates", "c06", "TestFailingCandidates", 1000, 20000, 4),
-             J("lazyafterother", "c06", "TestLazyAfterOtherContainer", 600, 10000, 4)],
+             J("lazyafterother", "c06", "TestLazyAfterOtherContainer", 600, 10000, 4),
+             J("registered", "c06", "TestStaticRegisteredProviders", None, None, env={"VERIF_GLOBAL_SETTINGS": "1"})],
     "assumptions": [
         "func:\"M,returns=..\" values are drawn from plain non-numeric strings (result comparison after the container's literal parsing is then plain string equality)",
         "which of several equally admissible components a single-valued point receives is not asserted here (C08/C10)",
